@@ -220,7 +220,17 @@ def run_one(ch):
             if ch.chance("rcrlf", 0.5):
                 cuts = sorted(set(cuts) | {stream.find(b"\r\n")})
             edges = [0] + [c for c in cuts if 0 < c < len(stream)] + [len(stream)]
-            sc["script"] = [("send", stream[a:b]) for a, b in zip(edges, edges[1:])] + [("stall",)]
+            gap = ch.pick("rgap", [0.0, 0.0, 0.001, 0.01])
+            sc["script"] = []
+            for a, b in zip(edges, edges[1:]):
+                if gap and a:
+                    sc["script"].append(("sleep", gap))
+                sc["script"].append(("send", stream[a:b]))
+            sc["script"].append(("stall",))
+            if ch.chance("rmw", 0.4):
+                # ... behind an (allowing) chain that decides a little later: reads that arrive
+                # between the request line and the verdict belong to the request
+                sc["mwdelay"] = ch.pick("rmwd", [0.0, 0.005, 0.05, 2.0])
             sc["coalesce_first"] = ch.chance("rcoal", 0.5)
             sc["records"] = len(edges) - 1
             sc["case"] = f"records-in-one-flight/{name}/{edges[1:-1]}/{sc['coalesce_first']}"
